@@ -207,4 +207,98 @@ example : allSamples (fun s => 10 * s) true 3 4 =
     [(0, false), (0, true), (10, false), (10, true), (20, false), (20, true)] := by decide
 example : localSamples (fun s => 10 * s) true 3 4 3 = [(20, true)] := by decide
 
+/-! ### Part 3: the MAP path, `_single_value_sample_list` and the sync checks -/
+
+section Sync
+variable {V R : Type} [DecidableEq V] [DecidableEq R]
+
+theorem synced_iff (w : World V R) :
+    synced w = true ↔ ∀ s ∈ w.others, pickleForm s.mean = pickleForm w.master.mean ∧ s.rng = w.master.rng := by
+  simp [synced, List.all_eq_true]
+
+/-- one iteration with mpi4py's broadcast keeps all tasks in sync and its internal check passes -/
+theorem iterate_keeps_sync (mapStep klStep : V → V) (tick : R → R) (m : Mode) (w : World V R) (h : synced w = true) :
+    synced (iterate bcastCopy mapStep klStep tick m w).1 = true ∧ (iterate bcastCopy mapStep klStep tick m w).2 = true := by
+  rw [synced_iff] at h
+  cases m with
+  | sampled =>
+    refine ⟨?_, rfl⟩
+    rw [synced_iff]
+    intro s hs
+    simp only [iterate, List.mem_map] at hs
+    obtain ⟨s0, hs0, rfl⟩ := hs
+    obtain ⟨h1, h2⟩ := h s0 hs0
+    have hv : s0.mean.val = w.master.mean.val := congrArg Prod.fst h1
+    simp [iterate, pickleForm, hv, h2]
+  | map =>
+    have key : synced (iterate bcastCopy mapStep klStep tick .map w).1 = true := by
+      rw [synced_iff]
+      intro s hs
+      simp only [iterate, List.mem_map] at hs
+      obtain ⟨s0, hs0, rfl⟩ := hs
+      simp [iterate, bcastCopy, (h s0 hs0).2]
+    exact ⟨key, key⟩
+
+/-- **sync_checks_never_fire**: for ANY number of tasks (`w.others` arbitrary: one task, two, more tasks than samples…)
+    and ANY sequence of MAP and sampled iterations, starting in sync, none of `check_MPI_equality`,
+    `check_MPI_synced_random_state` and the check inside `_single_value_sample_list` ever raises -/
+theorem sync_checks_never_fire (mapStep klStep : V → V) (tick : R → R) :
+    ∀ (modes : List Mode) (w : World V R), synced w = true → checksPass bcastCopy mapStep klStep tick modes w = true := by
+  intro modes
+  induction modes with
+  | nil => intro w _; rfl
+  | cons m ms ih =>
+    intro w h
+    obtain ⟨h1, h2⟩ := iterate_keeps_sync mapStep klStep tick m w h
+    simp only [checksPass, h, h2, Bool.true_and]
+    exact ih _ h1
+
+/-- **root_keeps_object_breaks_sync**: with a communicator whose `bcast` leaves the root's own object in place (NOT what
+    mpi4py or `mpi4py.util.pkl5` do), the MAP branch fails its own "MPI tasks are not in sync" check as soon as there is
+    a second task — the root holds a freshly built mean, everybody else an unpickled copy, and their pickles differ.
+    This is the failure a seeding agent observed with an emulated 2-task communicator: an artefact of that emulation. -/
+theorem root_keeps_object_breaks_sync (mapStep klStep : V → V) (tick : R → R) (w : World V R) (s : RankSt V R)
+    (rest : List (RankSt V R)) (hw : w.others = s :: rest) :
+    (iterate bcastRootKeeps mapStep klStep tick .map w).2 = false := by
+  simp [iterate, synced, hw, bcastRootKeeps, pickleForm, roundTrip]
+
+end Sync
+
+/-- **single_value_list**: `_single_value_sample_list` on `p ≥ 1` tasks is a sample list with exactly one sample: the
+    local counts sum to 1, the master's local index list is `[0]`, every other task's is empty (more tasks than samples) -/
+theorem single_value_list (p : Nat) (hp : 0 < p) :
+    (singleValueCounts p).foldl (· + ·) 0 = 1 ∧ computeLocalIndices (singleValueCounts p) 0 = [0] ∧
+    ∀ r, 0 < r → r < p → computeLocalIndices (singleValueCounts p) r = [] := by
+  obtain ⟨q, rfl⟩ : ∃ q, p = q + 1 := ⟨p - 1, by omega⟩
+  have hcounts : singleValueCounts (q + 1) = 1 :: List.replicate q 0 := by
+    unfold singleValueCounts
+    rw [List.range_succ_eq_map]
+    simp only [List.map_cons, List.map_map, if_true]
+    congr 1
+    rw [List.eq_replicate_iff]
+    exact ⟨by simp, by intro b hb; simp only [List.mem_map, List.mem_range, Function.comp] at hb; obtain ⟨a, _, rfl⟩ := hb; simp⟩
+  have hfold : ∀ (l : List Nat) (a : Nat), (∀ x ∈ l, x = 0) → l.foldl (· + ·) a = a := by
+    intro l
+    induction l with
+    | nil => intro a _; rfl
+    | cons x l ih => intro a h; simp only [List.foldl_cons]; rw [h x (List.mem_cons_self ..)]; exact ih a (fun y hy => h y (List.mem_cons_of_mem _ hy))
+  refine ⟨?_, ?_, ?_⟩
+  · rw [hcounts]; simp only [List.foldl_cons]; exact hfold _ _ (fun x hx => List.eq_of_mem_replicate hx)
+  · rw [hcounts]; simp [computeLocalIndices]
+  · intro r hr hrp
+    rw [hcounts]
+    obtain ⟨r', rfl⟩ : ∃ r', r = r' + 1 := ⟨r - 1, by omega⟩
+    simp only [computeLocalIndices, List.getD_cons_succ]
+    have : (List.replicate q 0).getD r' 0 = 0 := by
+      simp only [List.getD_eq_getElem?_getD, List.getElem?_replicate]
+      split <;> rfl
+    rw [this]; rfl
+
+-- non-vacuity: two tasks, MAP then sampled then MAP: all checks pass with mpi4py's broadcast, the first one fails otherwise
+example : checksPass (V := Nat) (R := Nat) bcastCopy (· + 1) (· * 2) (· + 1) [.map, .sampled, .map]
+    ⟨⟨⟨5, .fresh⟩, 0⟩, [⟨⟨5, .fresh⟩, 0⟩]⟩ = true := by decide
+example : checksPass (V := Nat) (R := Nat) bcastRootKeeps (· + 1) (· * 2) (· + 1) [.map]
+    ⟨⟨⟨5, .fresh⟩, 0⟩, [⟨⟨5, .fresh⟩, 0⟩]⟩ = false := by decide
+example : singleValueCounts 4 = [1, 0, 0, 0] := by decide
+
 end NiftyVerif.C22
